@@ -897,7 +897,8 @@ class Twin:
         vmax = p["vmax"] if len(p["vmax"]) == p["C"] else [p["vmax"][0]] * p["C"]
         a = {"R": R, "C": C, "stock": p["stock"], "vmax": vmax, "mint10": p["mint10"], "small": max(vmax) <= 50,
              "stocklw": op["stock"] + 1, "stockcol": sc, "diluentlw": op["diluent"] + 1, "diluentcol": op.get("diluent_column", 0),
-             "platelw": op["plate"] + 1, "hasdest": dest is not None, "frac": frac, "fsup": bool(fsup and frac),
+             "platelw": op["plate"] + 1, "hasdest": dest is not None, "destlw": (op["dest"] + 1) if dest is not None else 0,
+             "vdest": op.get("v_dest", 0) if dest is not None else 0, "frac": frac, "fsup": bool(fsup and frac),
              "before": before, "after": after, "upm": int(1 / self.unit) if self.unit.numerator == 1 else 0,
              "roomy": bool(op.get("roomy", True)), "planned": plan is not None}
         a.update(proj)
